@@ -218,6 +218,10 @@ func runRcDriver(jc *JobCtx, d rcDriver, bound int) {
 			}
 		}
 		vrt.WaitIdle()
+		// the last Close ran alone and triggers a collection pass by itself: nothing may be left for a forced one
+		if l := e.db.GetLastGCSn(); l != 3 {
+			vrt.Fail("gc-stuck", fmt.Sprintf("every handle is closed (the last Close ran alone) but GetLastGCSn()=%d without a forced GC() (retired, uncollected epochs: %v): closes no longer drive the collector", l, nitro.VerifRetired(e.db)))
+		}
 		e.db.GC()
 		vrt.WaitIdle()
 		if l := e.db.GetLastGCSn(); l != 3 {
